@@ -51,6 +51,11 @@ type Config struct {
 	Switch  int       // cost of a non-default pick when the running thread is blocked; <0 = never
 	SelCase int       // cost of a non-default ready select case / rendezvous partner; <0 = never
 	Timer   int       // cost (budget T) of firing the earliest timer while threads are enabled; <0 = never
+	// Stall: cost (budget P) of stalling the running thread at a scheduling point: it gets the lowest
+	// priority and runs again only when no other thread is enabled (exhaustive priority-change points,
+	// the systematic counterpart of PCT). 0 = never (the zero value keeps old configs unchanged), use
+	// a positive cost to enable.
+	Stall int
 	Scope   func(site string) bool
 	// Horizon is the largest virtual time a timer may fire at.
 	Horizon  time.Duration
@@ -181,6 +186,7 @@ type thread struct {
 	partnerNow bool
 	fn         func()
 	label      string
+	prio       int // scheduling priority (0 default; stalled threads get negative values)
 }
 
 type timer struct {
@@ -206,6 +212,7 @@ type Sched struct {
 	used    [nBud]int
 	hash    uint64
 
+	minPrio  int
 	aborting bool
 	finished bool
 	outcome  Outcome
@@ -465,6 +472,15 @@ func (s *Sched) dispatch(self *thread) {
 			s.fireTimer(s.nextTimer())
 			continue
 		}
+		if tr.kind == tStall {
+			s.minPrio--
+			s.cur.prio = s.minPrio
+			s.mix(0x5741)
+			if s.trace != nil {
+				s.traceStr(fmt.Sprintf("%d stall t%d[%s] @%s", s.step, s.cur.id, s.cur.name, s.cur.op.site))
+			}
+			continue
+		}
 		s.apply(self, tr)
 		return
 	}
@@ -474,6 +490,7 @@ const (
 	tRun = iota
 	tRendezvous
 	tTimer
+	tStall
 )
 
 type trans struct {
@@ -666,10 +683,13 @@ type trange struct {
 func (s *Sched) enumerate() ([]trans, bool) {
 	out := s.trbuf[:0]
 	cur := s.cur
+	ranges := s.rangebuf[:0]
 	if cur != nil && !cur.done && cur.op.kind != opQuiesce {
 		out = s.enabledOf(cur, out)
+		if len(out) > 0 {
+			ranges = append(ranges, trange{cur, 0, len(out)})
+		}
 	}
-	ranges := s.rangebuf[:0]
 	anyQ := false
 	for _, t := range s.threads {
 		if t.done || t.exited || t == cur {
@@ -686,7 +706,7 @@ func (s *Sched) enumerate() ([]trans, bool) {
 		k := lo
 		for i := lo; i < len(out); i++ {
 			x := out[i]
-			if x.kind == tRendezvous || x.kind == tRun+tRendezvous {
+			if x.kind == tRendezvous {
 				if x.p == cur || t.op.cases[x.ci].Dir == RecvDir {
 					continue
 				}
@@ -706,11 +726,26 @@ func (s *Sched) enumerate() ([]trans, bool) {
 		}
 	}
 	if len(ranges) > 1 {
-		// insertion sort by (ready, id); then rebuild the tail of out in that order
+		// insertion sort by (priority desc, running thread first, ready, id); then rebuild out in that order
+		less := func(a, b *thread) bool {
+			if a.prio != b.prio {
+				return a.prio > b.prio
+			}
+			if a == cur {
+				return true
+			}
+			if b == cur {
+				return false
+			}
+			if a.ready != b.ready {
+				return a.ready < b.ready
+			}
+			return a.id < b.id
+		}
 		for i := 1; i < len(ranges); i++ {
 			r := ranges[i]
 			j := i - 1
-			for j >= 0 && (ranges[j].t.ready > r.t.ready || (ranges[j].t.ready == r.t.ready && ranges[j].t.id > r.t.id)) {
+			for j >= 0 && less(r.t, ranges[j].t) {
 				ranges[j+1] = ranges[j]
 				j--
 			}
@@ -724,17 +759,11 @@ func (s *Sched) enumerate() ([]trans, bool) {
 			}
 		}
 		if !sorted {
-			base := ranges[0].lo
-			for _, r := range ranges {
-				if r.lo < base {
-					base = r.lo
-				}
-			}
 			tmp := s.altbuf[:0]
 			for _, r := range ranges {
 				tmp = append(tmp, out[r.lo:r.hi]...)
 			}
-			copy(out[base:], tmp)
+			copy(out, tmp)
 			s.altbuf = tmp[:0]
 		}
 	}
@@ -751,12 +780,6 @@ func (s *Sched) enumerate() ([]trans, bool) {
 			if !t.done && !t.exited && t.op.kind == opQuiesce && t.op.prio == best {
 				out = append(out, trans{kind: tRun, t: t})
 			}
-		}
-	}
-	// normalise the receiver-side rendezvous marker
-	for i := range out {
-		if out[i].kind == tRun+tRendezvous {
-			out[i].kind = tRendezvous
 		}
 	}
 	s.trbuf = out[:0]
@@ -785,6 +808,7 @@ func (s *Sched) inScope(site string) bool {
 // chooseTransition applies replay / default / recording.
 func (s *Sched) chooseTransition(trs []trans, timerAlt bool) (trans, bool) {
 	def := trs[0]
+	stallable := s.cfg.Stall > 0 && s.cur != nil && def.t == s.cur && len(trs) > 1 && s.cfg.Budget[BudP]-s.used[BudP] >= s.cfg.Stall
 	if len(trs) == 1 && !timerAlt {
 		return def, true
 	}
@@ -792,7 +816,7 @@ func (s *Sched) chooseTransition(trs []trans, timerAlt bool) (trans, bool) {
 	cur := s.cur
 	curEnabled := cur != nil && !cur.done && def.t == cur
 	remP := s.cfg.Budget[BudP] - s.used[BudP]
-	if !timerAlt && remP <= 0 && s.cfg.Preempt > 0 && s.cfg.Switch > 0 && s.cfg.SelCase > 0 {
+	if !timerAlt && remP <= 0 && s.cfg.Preempt != 0 && s.cfg.Switch != 0 && s.cfg.SelCase != 0 {
 		return def, true
 	}
 	alts := s.altbuf[:0]
@@ -820,6 +844,22 @@ func (s *Sched) chooseTransition(trs []trans, timerAlt bool) (trans, bool) {
 		alts = append(alts, x)
 		costs = append(costs, int8(c))
 	}
+	stallIdx := -1
+	if stallable {
+		// only worth offering if some thread of another identity is enabled
+		other := false
+		for _, x := range trs[1:] {
+			if x.t != def.t {
+				other = true
+				break
+			}
+		}
+		if other && (s.cfg.Scope == nil || s.inScope(def.t.op.site)) {
+			stallIdx = len(alts)
+			alts = append(alts, trans{kind: tStall})
+			costs = append(costs, int8(s.cfg.Stall))
+		}
+	}
 	timerIdx := -1
 	if timerAlt {
 		c := s.cfg.Timer
@@ -838,6 +878,7 @@ func (s *Sched) chooseTransition(trs []trans, timerAlt bool) (trans, bool) {
 	if !ok {
 		return def, false
 	}
+	_ = stallIdx
 	if idx == timerIdx {
 		s.used[BudT] += int(costs[idx])
 	} else {
